@@ -54,7 +54,7 @@ def spare_case(case):
     from harness import imgrun, product, project
 
     rnd = random.Random(case["seed"])
-    b = product.build_product(level=case["level"], images=case["images"], seed=case["seed"], leader=case.get("leader"))
+    b = product.build_product(level=case["level"], images=case["images"], seed=case["seed"], leader=case.get("leader"), ctx=case.get("ctx"))
     res = {"case": case, "bad": [], "n": 0}
 
     def fp_of(files):
@@ -265,7 +265,9 @@ def body(chk):
     sp_cases = []
     for j in range(12 if chk.tier == "quick" else 200):
         level = ("1.5", "1.1", "3.1")[j % 3]
-        sp_cases.append(dict(level=level, seed=chk.seed + 500 + j, images=(("HH", None, 3, 2), ("HV", None, 2, 1)), fs=("local", "vtrace")[j % 2]))
+        # (every projection flavour keeps other blocks of the map projection record, with their own filler areas)
+        desig = ("UTM-PROJECTION", "LCC-PROJECTION", "UPS-PROJECTION", "MER-PROJECTION")[(j // 3) % 4]
+        sp_cases.append(dict(level=level, seed=chk.seed + 500 + j, images=(("HH", None, 3, 2), ("HV", None, 2, 1)), fs=("local", "vtrace")[j % 2], ctx=dict(designator=desig)))
     sp_results = checklib.pmap(spare_case, sp_cases, chk.scratch)
     n_sp = 0
     for res in sp_results:
